@@ -352,7 +352,9 @@ func TestC04(t *testing.T) {
 		if sb.Len() > 0 {
 			r.Label("random:shared-slice-or-map")
 		}
-		r.Sample(func() interface{} { return map[string]interface{}{"nodes": n, "graph": desc, "shared_containers": sb.String()} })
+		r.Sample(func() interface{} {
+			return map[string]interface{}{"nodes": n, "graph": desc, "shared_containers": sb.String()}
+		})
 		if msg != "" {
 			failf(rt, c, "C04 random graph of %d nodes: %s\n graph: %s\n shared containers: %s", n, msg, desc, sb.String())
 		}
